@@ -202,11 +202,25 @@ def scn_flavours(T, case):
         T.prove("C04.filter.total_mass_is_percentile", T.close(T.total([w[i] for i in range(n)]), p, 1e-9))
 
 
+# ---------------------------------------------------------------------------------- the filter inside the real evaluator
+def cases_chain(tier):
+    from contracts import integration
+
+    return integration.cases_filter_chain(('cvar-objective', 'cvar-constraint'), tier)
+
+
+def scn_chain(T, case):
+    from contracts import integration
+
+    integration.scn_filter_chain(T, case, "C04")
+
+
 SCENARIOS = [
     Scenario("kernel", scn_kernel, cases_kernel, {"quick": 5, "thorough": 40}),
     Scenario("flavours", scn_flavours, cases_flavours, {"quick": 5, "thorough": 30}),
     Scenario("rational_grid_native", scn_grid, cases_grid, {"quick": 6, "thorough": 40}),
     Scenario("kernel_bit_precise_binary64", scn_fp, cases_fp, {"quick": 50, "thorough": 300}),
+    Scenario("filter_inside_the_evaluator", scn_chain, cases_chain, {"quick": 3, "thorough": 10}),
 ]
 
 MANIFEST = {
